@@ -2,7 +2,7 @@
   Engine `midi` (C20).  Op line (see harness/midi.cpp for the full description):
     P:<t>:<min8>:<max8>[,...]  <op> ...      ops: m<k>c m<k>f u<k>c u<k>f x r n c:<par>:<val>[:<chan>:<nrpn>]
   Output: one token per `c` op (`-` | p<k>:i:<dec> | p<k>:f:<8 hex>), `.` when there is none;
-  `crash` when the model says the implementation indexes outside a vector.
+  `crash:asan:heap-buffer-overflow` when the model says the implementation indexes outside a vector.
   A line starting with the word `T` instead prints the trigger predicates of the rest of
   the line:  `K1=<0|1> K2=<0|1>` (used by tools/props/c20.py to attribute known findings).
 -/
@@ -99,7 +99,7 @@ def step (line : String) : String :=
     | none => "bad-op"
     | some (ports, ops) =>
       match Rtosc.Midi.run ports Sys.init ops with
-      | none => "crash"
+      | none => "crash:asan:heap-buffer-overflow"
       | some (_, outs) =>
         let toks := (ops.zip outs).filterMap fun (op, out) =>
           if isCC op then
